@@ -793,6 +793,10 @@ func cmdPipes(args []string) int {
 				fails, line = pipes.MultiBindScenario(sd)
 			} else if n, _ := fmt.Sscanf(l, "netpipe seed=%d", &sd); n == 1 {
 				fails, line = pipes.NetmachScenario(sd)
+			} else if n, _ := fmt.Sscanf(l, "bindany seed=%d", &sd); n == 1 {
+				fails, line = pipes.BindAnyScenario(sd)
+			} else if n, _ := fmt.Sscanf(l, "busytarget seed=%d", &sd); n == 1 {
+				fails, line = pipes.BusyTargetScenario(sd)
 			} else {
 				continue
 			}
@@ -997,6 +1001,29 @@ func cmdCore(args []string) int {
 		fmt.Println("not a schemagrow case")
 		return 2
 	}
+	if *replay != "" && strings.HasSuffix(*replay, ".ocase") {
+		b, err := os.ReadFile(*replay)
+		if err != nil {
+			fmt.Println(err)
+			return 2
+		}
+		for _, l := range strings.Split(string(b), "\n") {
+			var sd int64
+			if n, _ := fmt.Sscanf(l, "defaultorder seed=%d", &sd); n == 1 {
+				fs, line := core.DefaultOrderScenario(sd, 256)
+				fmt.Println(line)
+				for _, f := range fs {
+					fmt.Println("MONITOR C11:", f)
+				}
+				if len(fs) > 0 {
+					return 1
+				}
+				return 0
+			}
+		}
+		fmt.Println("not a default-order case")
+		return 2
+	}
 	if *replay != "" && strings.HasSuffix(*replay, ".icase") {
 		c, err := core.LoadCase(*replay)
 		if err != nil {
@@ -1126,6 +1153,20 @@ func cmdCore(args []string) int {
 			file := filepath.Join(*out, fmt.Sprintf("C11-seed%d-import%d.icase", *seed, i))
 			os.WriteFile(file, []byte("# "+f+"\n# the first half of the operations runs on a machine which is exported, a fresh machine imports it and runs the rest\n"+icases[i].String()+"\n"), 0o644)
 			res.Failures = append(res.Failures, core.FailRec{Prop: "C11", Msg: f, File: file})
+		}
+		// machines relying on the inferred state order, names that differ in letter case only
+		nd := 60
+		if *tier == "thorough" {
+			nd = 1500
+		}
+		for i := 0; i < nd; i++ {
+			fs, line := core.DefaultOrderScenario(*seed*100129+int64(i), reps)
+			if len(fs) > 0 {
+				file := filepath.Join(*out, fmt.Sprintf("C11-seed%d-order%d.ocase", *seed, i))
+				os.WriteFile(file, []byte("# "+fs[0]+"\n"+line+"\n"), 0o644)
+				res.Failures = append(res.Failures, core.FailRec{Prop: "C11", Msg: fs[0], File: file})
+				break
+			}
 		}
 		res.Evaluations += core.ImportDetStats["executions"]
 		if res.Extra == nil {
